@@ -46,9 +46,13 @@ def h(obj) -> str:
 
 class Known:
     def __init__(self):
-        path = os.path.join(VERIF, "known_findings.json")
+        import glob
+
         self.entries = {}
-        if os.path.exists(path):
+        paths = [os.path.join(VERIF, "known_findings.json")] + sorted(glob.glob(os.path.join(VERIF, "known", "*.json")))
+        for path in paths:
+            if not os.path.exists(path):
+                continue
             doc = json.load(open(path))
             for e in doc.get("findings", []):
                 self.entries.setdefault(e["property"], {})[e["signature"]] = e["what"]
@@ -234,7 +238,10 @@ def _shard_main(prop, shard, nshards, seed, tier, budget, out):
         runner.init()
         mod = importlib.import_module(f"vf.props.{prop.lower()}")
         ctx = Ctx(prop, shard, nshards, seed, tier, budget)
+        if shard == 0:
+            runner.SELFCHECK["left"] = 5
         mod.run(ctx)
+        ctx.stats.extra["mode_selfcheck_cases"] = runner.SELFCHECK["done"]
         result = {"ok": True, "stats": ctx.stats.dump()}
     except BaseException:  # harness error
         result = {"ok": False, "error": traceback.format_exc()}
